@@ -148,3 +148,8 @@ Definition doerner_refresh_start (grp : bytes) (v : doerner_view) (self other : 
 (* doerner.SignReceiver / SignSender: also the OT setup and a message *)
 Definition doerner_sign_start (grp : bytes) (v : doerner_view) (self other : bytes) (msg_len : nat) : bool :=
   doerner_material v && dv_setup v && msg_ok msg_len && doerner_pair_ok (Some grp) self other.
+
+(* ---------------------------------------------------------------- protocols/example *)
+
+(* example.StartXOR: info has no Group and no Threshold (nil, 0) *)
+Definition xor_start (ids : list bytes) (self : bytes) : bool := sess_ok None ids self 0.
